@@ -65,6 +65,18 @@ def oracle_c07(case, obs):
         got = env["COND_DEPS"].split(":") if env["COND_DEPS"] else []
         if got != want:
             out.append(("task t%d got COND_DEPS=%r, expected the output directories of its direct dependencies in declared order %r" % (x, got, want), None))
+    # the version recorded for an experiment that ran to a successful end is the one whose directory it was given
+    rows = getattr(obs, "index_rows", None) or []
+    finished_ok = {e[1] for e in (obs.events or []) if e[0] == "finish" and e[2] == 0}
+    for s in obs.spawns:
+        x = s["task"]
+        if case.tasks[x].kind != "experiment" or x not in finished_ok:
+            continue
+        co = s["env"]["COND_OUT"]
+        suffix = co.rsplit(".", 1)[1] if "." in os.path.basename(co) else ""
+        mine = [r[1] for r in rows if r[0] == ident(x, case.tasks[x]) and r[1] != 1000 + x]
+        if suffix.isdigit() and mine and int(suffix) not in mine:
+            out.append(("experiment t%d ran in %s but the version recorded for it is %r" % (x, co, mine), None))
     # combine links are checked by C18; all dependents see the same directory of a dependency
     seen = {}
     for s in obs.spawns:
@@ -195,7 +207,10 @@ def real_children(chk, n):
         opts = {k: rng.choice(["v", 2, False]) for k in rng.sample(["k", "n"], rng.randint(0, 2))}
         files = {
             "COND": 'run_experiment(name="e", run="true")\nrun_command(name="g0", run="true")\ngroup(name="g", deps=[":g0"])\n',
-            "p/q/COND": 'run_command(name="c", run=%r, args=%r, options=%r, deps=["//:e", "//:g", "//:g0"])\n' % (CHILD.strip(), args, opts),
+            # two dependencies with the same NAME in different packages: both directories, in declared order
+            "left/COND": 'run_command(name="gen", run="true")\n',
+            "right/COND": 'run_command(name="gen", run="true")\n',
+            "p/q/COND": 'run_command(name="c", run=%r, args=%r, options=%r, deps=["//left:gen", "//:e", "//:g", "//:g0", "//right:gen"])\n' % (CHILD.strip(), args, opts),
         }
         root = implrun.make_project(files)
         r = implrun.run_cond(["run", "//p/q:c"], os.path.join(root, "p"), timeout=30)
@@ -206,7 +221,8 @@ def real_children(chk, n):
             continue
         seen = json.load(open(seen_path, encoding="utf-8"))
         vers = [d for d in os.listdir(os.path.join(root, "cond-out")) if d.startswith("e.task.")]
-        want_deps = ":".join([os.path.join(root, "cond-out", vers[0]), os.path.join(root, "cond-out", "g0.task")]) if len(vers) == 1 else None
+        want_deps = ":".join([os.path.join(root, "cond-out", "left", "gen.task"), os.path.join(root, "cond-out", vers[0]), os.path.join(root, "cond-out", "g0.task"),
+                              os.path.join(root, "cond-out", "right", "gen.task")]) if len(vers) == 1 else None
         # bash splits the unquoted command line into words
         want_argv = []
         for a in args:
